@@ -470,11 +470,17 @@ fn denote_inner(ev: &Ev) -> R<Expected> {
                 if n < 0 {
                     return undef("negative amount in a mint / burn block");
                 }
+                if n > i64::MAX as i128 {
+                    return Err(Denotation::MustFail(format!("mint / burn amount {n} beyond the field's 64 signed bits")));
+                }
                 *x.mint.entry((pol, name)).or_insert(0) += sign * n;
             }
         }
     }
     x.mint.retain(|_, v| *v != 0);
+    if let Some(v) = x.mint.values().find(|v| **v > i64::MAX as i128 || **v < i64::MIN as i128) {
+        return Err(Denotation::MustFail(format!("total minted amount {v} of one asset class beyond the field's 64 signed bits")));
+    }
     for (field, src) in [(&mut x.start, &p.since), (&mut x.ttl, &p.until)] {
         if let Some(e) = src {
             let v = ev.int(e)?;
